@@ -12,6 +12,7 @@ mod props_c11;
 mod props_e2;
 mod props_e3;
 mod sched;
+mod stress;
 mod props_misc;
 mod engine;
 mod gen;
@@ -56,7 +57,12 @@ fn level_of(id: &str) -> &'static str {
 fn parts(id: &'static str, tier: Tier, seed: u64) -> Vec<Part> {
     match id {
         "C01" | "C02" | "C18" => vec![seq_part(id, tier, seed)],
-        "C07" | "C13" => vec![seq_part(id, tier, seed), e3_part(id)],
+        "C13" => vec![seq_part(id, tier, seed), e3_part(id)],
+        "C07" => vec![
+            seq_part(id, tier, seed),
+            e3_part(id),
+            Part { rule: props_e3::STRESS_SHARED_RULE.to_string(), run: Box::new(|ctx, acc| props_e3::run_stress_shared(ctx, acc, false, true)) },
+        ],
         "C12" | "C20" => vec![seq_part(id, tier, seed), e2_part(id, tier)],
         "C06" => vec![seq_part(id, tier, seed), e2_part(id, tier), e3_part(id)],
         "C03" | "C09" => vec![e2_part(id, tier)],
@@ -65,7 +71,15 @@ fn parts(id: &'static str, tier: Tier, seed: u64) -> Vec<Part> {
             Part { rule: props_misc::C08_PLANT_RULE.to_string(), run: Box::new(|ctx, acc| props_misc::run_c08_planted(ctx, acc)) },
             e3_part(id),
         ],
-        "C04" | "C05" | "C15" => vec![e3_part(id)],
+        "C15" => vec![e3_part(id)],
+        "C04" => vec![
+            e3_part(id),
+            Part { rule: props_e3::STRESS_SHARED_RULE.to_string(), run: Box::new(|ctx, acc| props_e3::run_stress_shared(ctx, acc, true, false)) },
+        ],
+        "C05" => vec![
+            e3_part(id),
+            Part { rule: props_e3::STRESS_REGISTER_RULE.to_string(), run: Box::new(|ctx, acc| props_e3::run_stress_register(ctx, acc)) },
+        ],
         "C17" => vec![Part { rule: props_misc::C17_RULE.to_string(), run: Box::new(|ctx, acc| props_misc::run_c17(ctx, acc)) }],
         "C19" => vec![Part { rule: props_misc::C19_RULE.to_string(), run: Box::new(|ctx, acc| props_misc::run_c19(ctx, acc)) }],
         "C10" => vec![Part { rule: props_misc::C10_RULE.to_string(), run: Box::new(|ctx, acc| props_misc::run_c10(ctx, acc)) }],
@@ -143,6 +157,8 @@ fn replay_case(id: &'static str, engine: &str, case: serde_json::Value) -> R<Cas
         "E2" => props_e2::replay_e2(id, case),
         "E2F" => props_e2::replay_c14(case),
         "E3" => props_e3::replay_e3(id, case),
+        "E3E" => props_e3::replay_e3_enum(id, case),
+        "STRESS-R" | "STRESS-L" | "STRESS-D" => props_e3::replay_stress(engine, case),
         "C11" => props_c11::replay_c11(case),
         "C08P" => props_misc::replay_c08_planted(case),
         "C17" => props_misc::replay_c17(case),
